@@ -85,6 +85,28 @@ pub(crate) fn needs_escape(name: &str) -> bool {
         .contains('_')
 }
 
+/// The spelling under which the name of a compiled variable is read back as
+/// itself. `x_1` and `x_a` are read as the names they are; an index fragment the
+/// parser would evaluate to something else (digits with leading zeros, the name
+/// of a built-in constant) is kept by the escaped form.
+pub(crate) fn written_name(name: &str) -> String {
+    let body = name.trim_start_matches('$').trim_start_matches('_');
+    let reinterpreted = body.split('_').skip(1).any(|fragment| {
+        let padded_digits = fragment.len() > 1
+            && fragment.starts_with('0')
+            && fragment.chars().all(|c| c.is_ascii_digit());
+        padded_digits
+            || crate::runtime_builtin::make_std_constants()
+                .iter()
+                .any(|constant| constant.name.value() == fragment)
+    });
+    if reinterpreted {
+        format!("\\{}", name)
+    } else {
+        name.to_string()
+    }
+}
+
 /// Folds a list of expressions into a balanced tree of the given associative
 /// operation, keeping the order of the operands. The depth of the tree grows
 /// with the logarithm of the number of operands, so that aggregating over a
